@@ -304,7 +304,7 @@ func famPager(t *testing.T) {
 				}
 			}
 			for k := 1; k <= 3; k++ {
-				p.insert(1000+k*7, "other")
+				p.insert(900000+k*7, "other")
 			}
 			// iterate with the page size; size 100 is also requested as 0 (= default)
 			for _, send := range []int{z.Size, -1} {
